@@ -263,6 +263,7 @@ func cmdVerify(args []string) {
 	dump := fs.String("dump", "", "directory to keep SMT files")
 	all := fs.Bool("all-solvers", false, "run every solver")
 	verbose := fs.Bool("v", false, "verbose")
+	cover := fs.Bool("cover", false, "vacuity check of every path condition")
 	fs.Parse(args)
 	g, err := loadAll(*repo)
 	if err != nil {
@@ -314,6 +315,13 @@ func cmdVerify(args []string) {
 		obs = append(obs, fr.Obligs...)
 	}
 	solveAll(obs, pres, *timeout, 16, *all, dir)
+	if *cover {
+		vac, n := coverCheck(obs, pres, 5, dir)
+		fmt.Printf("cover: %d path conditions checked, %d vacuous\n", n, len(vac))
+		for _, v := range vac {
+			fmt.Println("   VACUOUS at", v)
+		}
+	}
 	bad := 0
 	for _, fr := range frs {
 		fmt.Printf("== %s: %d obligations\n", fr.Name, len(fr.Obligs))
